@@ -831,6 +831,9 @@ class FactBase:
         self.adts = {a["path"]: a for a in self.d["adts"]}
         self.consts = {c["path"]: c for c in self.d["consts"]}
         self.impls = self.d["impls"]
+        self.flatten = {}
+        if self.presentation != "written":
+            self.flatten = self._compute_flatten()
         self.spliced = []
         self._absorbed = None
         self.fresh_paths = set()
@@ -1068,7 +1071,38 @@ class FactBase:
         a = self.adts.get(path)
         if not a:
             return None
+        inner = self.flatten.get(path) if variant == 0 else None
+        if inner is not None:
+            return self.adts[inner]["variants"][0]["fields"]
         return a["variants"][variant]["fields"]
+
+    def _compute_flatten(self):
+        """A type of the pinned tree whose fields were moved, as they are, into one private struct
+        it now holds as its only field (`Half { state: CipherState { key, index, previous } }`):
+        the rules see the fields where they were (outer.i = outer.0.i).  {outer: inner}"""
+        out = {}
+        anchors = dict((_ANCHORS or {}).get("adts", {}))
+        anchors.update((_ANCHORS or {}).get("adts_pub", {}))
+        known = set(anchors)
+        for path, a in self.adts.items():
+            sig = anchors.get(path)
+            if sig is None or a.get("kind") != "Struct" or len(a["variants"]) != 1:
+                continue
+            fs = a["variants"][0]["fields"]
+            if len(fs) != 1:
+                continue
+            it = self._types[fs[0]["ty"]]
+            ip = it.get("path")
+            if it.get("k") != "adt" or not it.get("local") or ip in known or ip not in self.adts or it.get("args"):
+                continue
+            ia = self.adts[ip]
+            if ia.get("kind") != "Struct" or len(ia["variants"]) != 1:
+                continue
+            shape = "%d:%s" % (len(ia["variants"][0]["fields"]), ",".join(self._types[f["ty"]]["s"] for f in ia["variants"][0]["fields"]))
+            parts = sig.split("|")
+            if len(parts) >= 2 and parts[0] == "Struct" and parts[1] == shape and len(ia["variants"][0]["fields"]) > 1:
+                out[path] = ip
+        return out
 
     def derived_traits(self, adt_path):
         out = set()
